@@ -93,13 +93,13 @@ class C02(Check):
             names = (names[self.seed % len(names)], names[(self.seed + 3) % len(names)])
         for name in names:
             wk = ("shipped", name)
-            build = "hg19" if self.tier == "thorough" or self.seed % 2 == 0 else "hg38"
-            gene = worlds.gene_of(wk, build)
-            ms = majors_of(gene, "1")
-            pairs = list(itertools.combinations_with_replacement(ms, 2))
-            step = max(1, len(pairs) // 150) if self.tier == "quick" else 1
-            for pair in pairs[self.seed % step::step]:
-                yield (wk, build, ("1", "1"), pair, (), 0.0)
+            for build in (("hg19", "hg38") if self.tier == "thorough" else (("hg19", "hg38")[self.seed % 2],)):
+                gene = worlds.gene_of(wk, build)
+                ms = majors_of(gene, "1")
+                pairs = list(itertools.combinations_with_replacement(ms, 2))
+                step = max(1, len(pairs) // 150) if self.tier == "quick" else 1
+                for pair in pairs[self.seed % step::step]:
+                    yield (wk, build, ("1", "1"), pair, (), 0.0)
 
     def successors(self, st):
         wk, build, struct, planted, devs, gap = st
